@@ -108,7 +108,7 @@ impl State {
                 let e = self.b(i, d);
                 if e != 0 {
                     if e == d {
-                        return Err(format!("beta{i} has a fixed point at {d}"));
+                        return Err(format!("beta{i} has a fixed point: at {d}"));
                     }
                     if self.b(i, e) != d {
                         return Err(format!("beta{i} not an involution: beta{i}({d}) = {e} but beta{i}({e}) = {}", self.b(i, e)));
@@ -116,12 +116,12 @@ impl State {
                 }
             }
             if self.unused[d as usize] && !self.is_free(d) {
-                return Err(format!("removed dart {d} is not free: {:?}", self.beta[d as usize]));
+                return Err(format!("removed dart not free: dart {d} has images {:?}", self.beta[d as usize]));
             }
             for i in 0..=dim {
                 let e = self.b(i, d);
                 if e != 0 && e < n && self.unused[e as usize] {
-                    return Err(format!("removed dart {e} is the beta{i} image of {d}"));
+                    return Err(format!("removed dart referenced: {e} is the beta{i} image of {d}"));
                 }
             }
         }
